@@ -42,7 +42,9 @@ def junk_value(name):
     return dict([("None", None), ("0", 0), ("''", ""), ("{}", {}), ("[]", [])])[name]
 
 
-MULTI = dict(two=["y"], three=["y", "z"])       # field selections with further loggees (tags), one field each
+MULTI = {"two": ["y"], "three": ["y", "z"],     # field selections with further loggees (tags), one field each
+         "two-x0": ["y"], "two-y0": ["y"]}      # ... where loggee x / y has never been stamped (Share.change only)
+UNSTAMPED = {"two-x0": "x", "two-y0": "y"}
 
 
 def alphabet(rule, sel="all"):
@@ -51,6 +53,8 @@ def alphabet(rule, sel="all"):
         # through the reference it obtained once, before the first drain; j: next junk element (cycles)
         return ["R", "T", "q", "qa", "j", "wb", "X"]
     extra = ["%sd" % t for t in MULTI.get(sel, [])]  # yd / zd: write a different value to that loggee
+    if sel in UNSTAMPED:                             # cx / cy: Share.change() (no stamp) on the unstamped loggee
+        return ["R", "T", "wd", "c" + UNSTAMPED[sel]] + extra + ["X"]
     return ["R", "T", "ws", "wd", "wb"] + extra + ["X"]
 
 
@@ -192,6 +196,10 @@ class Ref:
             self.ov[op[0]] = (self.ov[op[0]] + 1) % 3
             self.pending = True
             self.wstamp = self.now
+        elif op == "cx":                 # value changes, but Share.change() is not an update
+            self.a = (self.a + 1) % 3
+        elif op == "cy":
+            self.ov["y"] = (self.ov["y"] + 1) % 3
         elif op in ("q", "qa"):
             self.npush += 1
             n = self.npush
@@ -250,7 +258,8 @@ class Impl:
                               fields=given_fields(rule, "all" if sel in MULTI else sel),
                               share_init=init, tick=TICK, base=BASE, tag=TAG,
                               logger_kw=dict(reuse=(sel != "one")),
-                              more_loggees=[(t, "mc." + t, None, [("a", 0)]) for t in MULTI.get(sel, [])])
+                              more_loggees=[(t, "mc." + t, None, [("a", 0)]) for t in MULTI.get(sel, [])],
+                              unstamped=["mc." + UNSTAMPED[sel]] if sel in UNSTAMPED else ())
         self.npush = 0
         self.njunk = 0
         # the producer's own reference to the queue object, taken once before anything is drained
@@ -288,6 +297,9 @@ class Impl:
         if op in ("yd", "zd"):
             o = w.shares["mc." + op[0]]
             return o.update(a=(o["a"] + 1) % 3)
+        if op in ("cx", "cy"):
+            o = w.shares["mc." + op[1]]
+            return o.change(a=(o["a"] + 1) % 3)
         if op == "j":
             return self.apply("j:" + JUNK[self.njunk % len(JUNK)])
         if op.startswith("j:"):
@@ -389,7 +401,8 @@ def diverge(node, hist, part, stage):
     replay = dict(rule=rule, fields=sel, history=list(hist), tick=TICK,
                   how="LogWorld(fs, rule, fields, share a/b) ; START/R/STOP = logger.runner.send(...) ; T = store.changeStamp(+tick) ; "
                       "ws/wd/wb = share.update(a=same / a=(a+1)%3 / b=(b+1)%3) ; yd/zd = the same on the further loggee shares mc.y / mc.z "
-                      "(fields=two/three: log.addLoggee(tag='y', loggee='mc.y'), ...) ; q = deck push(odict(a=n,b=10n)) / list append(n) ; "
+                      "(fields=two/three: log.addLoggee(tag='y', loggee='mc.y'), ...) ; fields=two-x0 / two-y0: share mc.x / mc.y is initialised "
+                      "with Share.change() so its stamp is None, cx / cy = share.change(a=(a+1)%3) on it ; q = deck push(odict(a=n,b=10n)) / list append(n) ; "
                       "qa = the same through the reference to share.deck / share['a'] taken once right after construction ; "
                       "j:<v> = deck push(v) / list append(v) for v in None, 0, '', {}, [] ; j = the next of these in that order ; "
                       "X = STOP, T, START")
@@ -549,8 +562,10 @@ def run():
     items = [(r, s, depth) for r in RULES for s in ("all", "one")]
     # logs with several loggees (the rules that loop over loggees): 2 loggees, thorough also 3
     # (bounded lower in thorough: the alphabet has 7-8 operations and a much larger value space)
-    mdepth = dict(two=depth if core.TIER == "quick" else 9, three=8)
+    mdepth = {"two": depth if core.TIER == "quick" else 9, "three": 8,
+              "two-x0": depth if core.TIER == "quick" else 9, "two-y0": depth if core.TIER == "quick" else 9}
     items += [(r, s, mdepth[s]) for r in ("change", "update") for s in (("two", "three") if core.TIER != "quick" else ("two",))]
+    items += [(r, s, mdepth[s]) for r in ("update", "change") for s in ("two-x0", "two-y0")]
     items += [("grid", r, s, maxlen) for r in QUEUE for s in ("all", "one")]
     parts = core.pmap(work_any, items)
     # keep, per group, the shortest (then lexicographically first) example over all shards
